@@ -39,6 +39,12 @@ pub struct Faulted {
 pub const BAD_UTF8: &[&str] = &[
     "%80", "%BF", "%bf", "%C3", "%c3", "%E2%82", "%e2%82", "%F0%9F%98", "%C0%AF", "%c0%af", "%E0%80%AF", "%ED%A0%80",
     "%ed%a0%80", "%F4%90%80%80", "%FF", "%ff", "%C3%28", "%F8%88%80%80%80", "%fE",
+    // overlong forms of '/', '.', 'a' and of the largest 2- and 3-byte scalars in every length; the ends of the
+    // surrogate range; lead bytes that never occur; a continuation byte replaced by ASCII
+    "%F0%80%80%AF", "%f0%80%80%af", "%F0%80%80%AE", "%E0%80%AE", "%C0%AE", "%C1%A1", "%E0%81%A1", "%F0%80%81%A1", "%E0%9F%BF", "%F0%8F%BF%BF",
+    "%ED%BF%BF", "%F5%80%80%80", "%F7%BF%BF%BF", "%E2%28%A1", "%E2%82%28", "%F0%28%8C%BC", "%F0%90%28%BC", "%F0%9F%98%28",
+    // a valid multi-byte sequence torn apart by raw text (a decoder that carries state across the raw text would join it)
+    "%E2%82x%AC", "%C3a%A9", "%F0%9F-%98%80", "%F0z%9F%98%80", "%E2%82.%AC", "%e2%82%41%ac", "%C3.%A9", "%F0%9F%98_%80",
 ];
 
 fn insert_unit(units: &mut Vec<String>, ch: &mut Chooser<'_>, unit: &str) {
